@@ -37,7 +37,7 @@ def main():
 
     # falsifier: the property itself on the real code (independent reference + glibc), disagreeing inputs first
     budget = (400000 if chk.thorough else 60000) * (4 if chk.broken else 1)
-    order = list(disagreeing) + fam['boundary'] + fam['corpus'] + fam['context']
+    order = list(disagreeing) + fam['boundary'] + fam['corpus'] + fam['context'] + fam['regex']
     rng = chk.rng
     pools = [fam['multi'], fam['malformed'], fam['single']]
     mixed = []
@@ -50,7 +50,7 @@ def main():
         extra = budget - len(order)
         if extra > 0:
             order += G.singles(rng, extra)
-    cex, tried = C.falsify(chk, order, budget + len(disagreeing) + len(fam['boundary']) + len(fam['corpus']) + len(fam['context']))
+    cex, tried = C.falsify(chk, order, budget + len(disagreeing) + len(fam['boundary']) + len(fam['corpus']) + len(fam['context']) + len(fam['regex']))
     chk.evaluations += tried
     chk.coverage['falsifier'] = {'strings_vs_printf_reference_and_glibc': tried, 'glibc_available': C.glibc_count('%d') is not None,
                                  'glibc_types_compared': C.STATS['glibc_types_compared'], 'glibc_types_platform_lp64': C.lp64(),
